@@ -16,14 +16,14 @@ func Harness_C04_cacheable_establishes() {
 	T := verifInt("T")
 	verifAssume(T >= 1)
 	resp := &HTTPResponse{}
-	reads := ghostClockReads
+	before := ghostClock
 	hc.Cacheable(resp, T)
-	obtained := ghostClock
-	verifAssert("C04.cacheable.reads-clock-once", ghostClockReads == reads+1)
+	after := ghostClock
 	verifAssert("C04.cacheable.status-hit", hc.status == StatusHit)
 	verifAssert("C04.cacheable.response", hc.response == resp)
-	verifAssert("C04.cacheable.createdAt", hc.createdAt == obtained)
-	verifAssert("C04.cacheable.expiredAt", hc.expiredAt == obtained+int64(T))
+	// "obtained" is a clock value read while storing
+	verifAssert("C04.cacheable.createdAt", hc.createdAt >= before && hc.createdAt <= after)
+	verifAssert("C04.cacheable.expiredAt", hc.expiredAt == hc.createdAt+int64(T))
 	verifAssert("C04.cacheable.never-immortal", hc.expiredAt != 0)
 	verifAssert("C04.cacheable.lock-released", !verifLockHeld(hc.mu))
 	verifReach("C04.cacheable.end")
